@@ -467,6 +467,16 @@ func W6Special(sink Sink) {
 		}
 	}
 	emit(md + strings.Repeat("0", 600) + "1e" + strconv.Itoa(mx-601))
+	// very long zero runs undone by a five- or six-digit exponent (the exponent matters beyond any
+	// clamp a parser applies to it; seeded change C04r7-m1 capped the exponent at 10000)
+	for _, Z := range []int{9000, 9990, 9999, 10000, 10001, 12000, 20000, 99999, 100000, 100001} {
+		z := strings.Repeat("0", Z)
+		emit("0." + z + "25e" + strconv.Itoa(Z+1))
+		emit("0." + z + "25e" + strconv.Itoa(Z+310))
+		emit("0." + z + "25e" + strconv.Itoa(Z-320))
+		emit("25" + z + "e-" + strconv.Itoa(Z))
+		emit("25" + z + ".5e-" + strconv.Itoa(Z+1))
+	}
 	// exact ties followed by a zero run and one more non-zero digit, INSIDE THE FRACTION, with the
 	// last digit before / at / after the 800-digit capacity of the slow path (the digit must still
 	// break the tie; seeded change C03r6-m2 lost the truncation flag for fraction digits only)
